@@ -165,6 +165,17 @@ def typing_rules(ctx, rule='A17c'):
                 base = args[0]
                 if isinstance(base, absint.Sym) and base.term == ('name', 'MetricType') and node.attr in mt:
                     return mt[node.attr]
+            if kind == 'call' and call_name(node) == 'isinstance' and len(args[0]) == 2:
+                # an object made by Objective.from_metric_node(..) is an Objective, one made by
+                # Constraint.from_metric_node(..) is not (and vice versa); the chooser's result stays open
+                obj, cls_ = args[0]
+                t_o = obj.term if isinstance(obj, absint.Sym) else None
+                t_c = cls_.term if isinstance(cls_, absint.Sym) else None
+                if isinstance(t_o, tuple) and t_o[0] == 'call' and isinstance(t_o[1], tuple) and t_o[1][0] == 'attr' \
+                        and t_o[1][2] == 'from_metric_node' and t_o[1][1] in (('name', 'Objective'),
+                                                                              ('name', 'Constraint')) and \
+                        t_c in (('name', 'Objective'), ('name', 'Constraint')):
+                    return t_o[1][1] == t_c
             return absint.NOTHING
 
         def binder(target, it, path):
